@@ -5,8 +5,6 @@ cd /verif
 ARGS=${@:-$(ls seeded | grep '^C')}
 OUT=seeded/MATRIX.md
 mkdir -p seeded/.rows
-# rows from an older MATRIX.md that have no row file yet
-if [ -f $OUT ]; then grep '^| C' $OUT | while IFS= read -r l; do id=$(echo "$l" | cut -d'|' -f2 | tr -d ' ' | tr '/' '-'); [ -f seeded/.rows/$id.row ] || echo "$l" > seeded/.rows/$id.row; done; fi
 for a in $ARGS; do
   p=${a%%/*}
   if [ "$a" = "$p" ]; then DIRS=$(ls -d seeded/$p/*/); else DIRS=seeded/$a/; fi
